@@ -116,7 +116,7 @@ fn match_strict<'a>(replies: &'a [Vec<u8>], sent: &[&'a Sent], pk: &[u8]) -> Res
     Ok(out)
 }
 
-fn parse_nonc(resp: &[u8]) -> Option<Vec<u8>> {
+pub fn parse_nonc(resp: &[u8]) -> Option<Vec<u8>> {
     let payload = if resp.len() >= 12 && &resp[0..8] == rc::MAGIC { &resp[12..] } else { resp };
     Msg::decode_any(payload).ok().and_then(|m| m.get(rc::NONC).map(|n| n.to_vec()))
 }
